@@ -22,6 +22,17 @@ var BranchTuples = []model.Branch{
 	{MidConn: "M", MidCont: "m", LastConn: "L", LastCont: "l"}, // every prefix position decodable
 	{MidConn: "┣━", MidCont: "┃　", LastConn: "┗━", LastCont: "　　"},
 	{MidConn: "T", MidCont: "", LastConn: "", LastCont: "I"},
+	{MidConn: "--", MidCont: "--", LastConn: "==", LastCont: "=-"}, // continuation strings ending in connector characters
+	{MidConn: " ", MidCont: "  ", LastConn: " ", LastCont: "   "},   // blanks only
+}
+
+// allBranches lists every index of BranchTuples.
+func allBranches() []int {
+	out := make([]int, len(BranchTuples))
+	for i := range out {
+		out[i] = i
+	}
+	return out
 }
 
 // ExtLists are the extension lists of the filesystem workloads.
